@@ -240,7 +240,7 @@ def lane_queries(ctx):
             ctx.violation(r2[0], small, r2[1])
 
 
-LANES = {"queries": dict(fn=lane_queries, quick=6000, thorough=150000)}
+LANES = {"queries": dict(fn=lane_queries, quick=20000, thorough=400000)}
 REQUIRED_COUNTERS = {"any": ["cmp:multiset", "cmp:ask", "cmp:construct", "cmp:form:select"]}
 
 
